@@ -1326,6 +1326,8 @@ def make_program(rng, features=None, size=1.0, tries=60):
         g = Gen(sub, features, size)
         try:
             prog = g.generate()
+            if prog is not None:
+                prog.files()          # an incomplete construct (None expression) cannot be printed: discard
             exp = evaluate(prog) if prog is not None else None
         except (RecursionError, TypeError, KeyError, IndexError, AttributeError):
             # a construct the generator could not complete (e.g. no function of a requested function type exists)
